@@ -17,10 +17,11 @@ import (
 
 func TestC03(t *testing.T) {
 	r := ev.Start("C03", "exploration")
-	r.Rule("seeded random histories with debug logging on; the AEAD/KMS/metastore/secret-factory monitors feed an online checker that (a) keeps the set of (key,nonce) pairs and of nonces duplicate-free, (b) derives key roles from provenance (SK = seen by the KMS, IK = wrapped/unwrapped under an SK, DRK = CreateRandom secret of the current call) and types every AEAD.Encrypt against payload<DRK<IK(partition)<SK, (c) scans every data row record, stored key record, KMS output and debug log line for every known plaintext key and payload (raw, base64, hex). A history is distinct+non-trivial when it rotated a key or saw a revocation.")
+	r.Rule("seeded random histories with debug logging on; the AEAD/KMS/metastore/secret-factory monitors feed an online checker that (a) keeps the set of (key,nonce) pairs and of nonces duplicate-free, (b) derives key roles from provenance (SK = seen by the KMS, IK = wrapped/unwrapped under an SK, DRK = CreateRandom secret of the current call) and types every AEAD.Encrypt against payload<DRK<IK(partition)<SK, (c) scans every data row record, stored key record, KMS output and debug log line for every known plaintext key and payload (raw, base64, hex, decimal and Go-syntax renderings); metastore reads, KMS calls and secure-memory allocations fail transiently in the histories, and a scripted matrix fails the k-th allocation / KMS call of the first operation of a process that loads persisted keys, then keeps encrypting. A history is distinct+non-trivial when it rotated a key or saw a revocation.")
 	r.Assume("a repeated 96-bit random nonce is treated as a violation (probability < 1e-15 over the events observed)", "StaticKMS's internal use of the AEAD is not part of the SDK's envelope and is not monitored")
 	concurrentNonces(t, r)
-	runMany(t, r, ev.Pick(40, 150), Params{Oracles: OC03, Steps: ev.Pick(300, 2000), MaxFacts: 3, ClockBias: 6, RevokeBias: 4, Debug: true, Parts: []string{"p0", "p1", "p2", "user_42", "üñí"}}, 3)
+	runMany(t, r, ev.Pick(40, 150), Params{Oracles: OC03, Steps: ev.Pick(300, 2000), MaxFacts: 3, ClockBias: 6, RevokeBias: 4, Debug: true, Parts: []string{"p0", "p1", "p2", "user_42", "üñí"}, FaultPct: 40}, 3)
+	matrixC03Faults(t, r)
 	r.Finish(t)
 }
 
@@ -30,6 +31,7 @@ func TestC04(t *testing.T) {
 	r.Assume("policies satisfy ExpireKeyAfter >= 2*CreateDatePrecision (a key whose truncated birth stamp is already older than its lifetime is excluded)", "metastore accepts writes (no faults injected here)")
 	runMany(t, r, ev.Pick(150, 3000), Params{Oracles: OC04, Steps: ev.Pick(120, 400), MaxFacts: 3, ClockBias: 45, RevokeBias: 3, Parts: []string{"p0", "p1", "p2"}, NoCacheFrac: 10, LatencyPct: 6, FaultPct: 40}, 4)
 	matrixC04(t, r)
+	matrixC04Race(t, r)
 	rotateThenDecryptOld(t, r)
 	f11C04(t, r)
 	r.Finish(t)
